@@ -367,6 +367,7 @@ class Index:
         self._inline_delegating_methods()
         self._inline_generators()
         self._inline_straightline_helpers()
+        self._unroll_constant_tables()
 
     def _inline_delegating_methods(self):
         """A method whose whole body is `return _helper(self, a, b)` / `_helper(self, a, b)` -- a private module-level function of
@@ -572,6 +573,226 @@ class Index:
         ret = body[-1].value
         st.value = ret
         return body[:-1] + [st]
+
+    # ------------------------------------------------ constant tables
+    def _unroll_constant_tables(self):
+        """Table-driven code over a CONSTANT table is the code it abbreviates.  A table is a tuple / list literal of constants (or of
+        tuples of constants) bound once at class or module level.  `for row in TABLE: BODY` (no break / continue) becomes BODY once
+        per row with the loop variables replaced by the constants; `for a, b in zip(TABLE, xs)` pairs row i with `xs[i]`;
+        `[f(n) for n in TABLE]` becomes the list display.  After that `getattr(o, 'name')` is `o.name`, `setattr(o, 'name', v)` is
+        `o.name = v`, and a local bound once to a list display and used only as `*local[a:b]` / `local[i]` in the statements that
+        follow is replaced by the elements it names."""
+        for m in self.mods.values():
+            items = [(None, fn) for fn in m.funcs.values()] + [(c, fn) for c in m.classes.values() for fn in c.methods.values()]
+            for c, fn in items:
+                try:
+                    if self._unroll_fn(m, c, fn):
+                        ast.fix_missing_locations(fn.node)
+                        set_parents(fn.node)
+                except RecursionError:
+                    pass
+
+    def _const_rows(self, m, c, e):
+        def literal(v):
+            if isinstance(v, (ast.Tuple, ast.List)) and v.elts and len(v.elts) <= 12 and all(
+                    isinstance(x, ast.Constant) or (isinstance(x, (ast.Tuple, ast.List)) and x.elts and all(isinstance(y, ast.Constant) for y in x.elts)) for x in v.elts):
+                return list(v.elts)
+            return None
+        if isinstance(e, (ast.Tuple, ast.List)):
+            return literal(e)
+        if isinstance(e, ast.Name) and e.id in m.consts:
+            n = sum(1 for st in m.tree.body if isinstance(st, ast.Assign) and any(isinstance(t, ast.Name) and t.id == e.id for t in st.targets)) if hasattr(m, 'tree') else 1
+            return literal(m.consts[e.id]) if n <= 1 else None
+        if isinstance(e, ast.Attribute) and isinstance(e.value, ast.Name) and c is not None and e.value.id in ('self', 'cls', c.name):
+            for k in ([c] + [b for b in self.mro(c) if b is not c]):
+                if e.attr in getattr(k, 'attrs', {}):
+                    return literal(k.attrs[e.attr])
+        return None
+
+    def _unroll_fn(self, m, c, fn):
+        idx = self
+        changed = [False]
+
+        def subst(nodes, env):
+            class S(ast.NodeTransformer):
+                def visit_Name(self, n):
+                    if n.id in env and isinstance(n.ctx, ast.Load):
+                        return ast.copy_location(clone([env[n.id]])[0], n)
+                    return n
+            return [S().visit(x) for x in clone(nodes)]
+
+        def bind(target, row, env):
+            if isinstance(target, ast.Name):
+                env[target.id] = row
+                return True
+            if isinstance(target, (ast.Tuple, ast.List)) and isinstance(row, (ast.Tuple, ast.List)) and len(target.elts) == len(row.elts) \
+                    and all(isinstance(t, ast.Name) for t in target.elts):
+                for t, r in zip(target.elts, row.elts):
+                    env[t.id] = r
+                return True
+            return False
+
+        def stores(nodes):
+            return {n.id for x in nodes for n in ast.walk(x) if isinstance(n, ast.Name) and isinstance(n.ctx, ast.Store)}
+
+        def unroll_for(st):
+            if st.orelse or any(isinstance(n, (ast.Break, ast.Continue)) for x in st.body for n in ast.walk(x)):
+                return None
+            it = st.iter
+            rows, other = idx._const_rows(m, c, it), None
+            if rows is None and isinstance(it, ast.Call) and isinstance(it.func, ast.Name) and it.func.id == 'zip' and len(it.args) == 2 and not it.keywords \
+                    and isinstance(it.args[1], ast.Name) and isinstance(st.target, (ast.Tuple, ast.List)) and len(st.target.elts) == 2:
+                rows, other = idx._const_rows(m, c, it.args[0]), it.args[1]
+            if rows is None or len(rows) > 8 or len(st.body) > 8:
+                return None
+            tnames = {n.id for n in ast.walk(st.target) if isinstance(n, ast.Name)}
+            if tnames & stores(st.body):
+                return None
+            out = []
+            for i, row in enumerate(rows):
+                env = {}
+                if other is None:
+                    if not bind(st.target, row, env):
+                        return None
+                else:
+                    if not bind(st.target.elts[0], row, env):
+                        return None
+                    if not isinstance(st.target.elts[1], ast.Name):
+                        return None
+                    env[st.target.elts[1].id] = ast.Subscript(value=ast.Name(id=other.id, ctx=ast.Load()), slice=ast.Constant(value=i), ctx=ast.Load())
+                out += [ast.copy_location(x, st) if not hasattr(x, 'lineno') else x for x in subst(st.body, env)]
+            return out
+
+        class Comp(ast.NodeTransformer):
+            def visit_ListComp(self, n):
+                self.generic_visit(n)
+                if len(n.generators) == 1 and not n.generators[0].ifs and not n.generators[0].is_async:
+                    g = n.generators[0]
+                    rows = idx._const_rows(m, c, g.iter)
+                    if rows is not None and len(rows) <= 8:
+                        elts = []
+                        for row in rows:
+                            env = {}
+                            if not bind(g.target, row, env):
+                                return n
+                            elts += subst([n.elt], env)
+                        changed[0] = True
+                        return ast.copy_location(ast.List(elts=elts, ctx=ast.Load()), n)
+                return n
+
+        class Attr(ast.NodeTransformer):
+            def visit_Call(self, n):
+                self.generic_visit(n)
+                if isinstance(n.func, ast.Name) and n.func.id == 'getattr' and len(n.args) == 2 and not n.keywords and isinstance(n.args[1], ast.Constant) \
+                        and isinstance(n.args[1].value, str) and n.args[1].value.isidentifier():
+                    changed[0] = True
+                    return ast.copy_location(ast.Attribute(value=n.args[0], attr=n.args[1].value, ctx=ast.Load()), n)
+                return n
+
+            def visit_Expr(self, st):
+                self.generic_visit(st)
+                v = st.value
+                if isinstance(v, ast.Call) and isinstance(v.func, ast.Name) and v.func.id == 'setattr' and len(v.args) == 3 and not v.keywords \
+                        and isinstance(v.args[1], ast.Constant) and isinstance(v.args[1].value, str) and v.args[1].value.isidentifier():
+                    changed[0] = True
+                    return ast.copy_location(ast.Assign(targets=[ast.Attribute(value=v.args[0], attr=v.args[1].value, ctx=ast.Store())], value=v.args[2]), st)
+                return st
+
+        def walk_blocks(node):
+            for field in ('body', 'orelse', 'finalbody'):
+                stmts = getattr(node, field, None)
+                if not isinstance(stmts, list) or not stmts or not isinstance(stmts[0], ast.stmt):
+                    continue
+                out = []
+                for st in stmts:
+                    walk_blocks(st)
+                    rep = unroll_for(st) if isinstance(st, ast.For) else None
+                    if rep is None:
+                        out.append(st)
+                    else:
+                        changed[0] = True
+                        for x in rep:
+                            walk_blocks(x)
+                        out.extend(rep)
+                setattr(node, field, out)
+            for h in getattr(node, 'handlers', []) or []:
+                walk_blocks(h)
+        before = changed[0]
+        walk_blocks(fn.node)
+        Comp().visit(fn.node)
+        if not changed[0]:
+            return False
+        Attr().visit(fn.node)
+        ast.fix_missing_locations(fn.node)
+        self._spread_list_locals(fn)
+        return True
+
+    def _spread_list_locals(self, fn):
+        """header = [a, b, c] ... f(*header[:2]) / header[1]   ->   f(a, b) / b   when `header` is bound once, used only in these
+        forms, in the statement list of the binding, with nothing in between that stores an attribute / item or is a bare call"""
+        for parent in ast.walk(fn.node):
+            for field in ('body', 'orelse', 'finalbody'):
+                blk = getattr(parent, field, None)
+                if not isinstance(blk, list) or not blk or not isinstance(blk[0], ast.stmt):
+                    continue
+                for i0, st in enumerate(list(blk)):
+                    if not (isinstance(st, ast.Assign) and len(st.targets) == 1 and isinstance(st.targets[0], ast.Name) and isinstance(st.value, (ast.List, ast.Tuple))
+                            and not any(isinstance(x, ast.Starred) for x in st.value.elts)):
+                        continue
+                    name, elts = st.targets[0].id, st.value.elts
+                    if sum(1 for n in ast.walk(fn.node) if isinstance(n, ast.Name) and n.id == name and isinstance(n.ctx, ast.Store)) != 1:
+                        continue
+                    loads = [n for n in ast.walk(fn.node) if isinstance(n, ast.Name) and n.id == name and isinstance(n.ctx, ast.Load)]
+                    later = blk[i0 + 1:]
+                    inblk = [n for x in later for n in ast.walk(x) if isinstance(n, ast.Name) and n.id == name and isinstance(n.ctx, ast.Load)]
+                    if not loads or len(inblk) != len(loads):
+                        continue
+                    last = max(j for j, x in enumerate(later) if any(n in inblk for n in ast.walk(x)))
+                    span = later[:last + 1]
+                    if any(isinstance(x, (ast.Expr, ast.AugAssign, ast.For, ast.While, ast.If, ast.Try, ast.With)) for x in span) or any(
+                            isinstance(x, ast.Assign) and any(not isinstance(t, ast.Name) for t in x.targets) for x in span[:-1]):
+                        continue
+                    ok = [True]
+
+                    def pick(sl):
+                        if isinstance(sl, ast.Slice):
+                            lo = sl.lower.value if isinstance(sl.lower, ast.Constant) else (0 if sl.lower is None else None)
+                            hi = sl.upper.value if isinstance(sl.upper, ast.Constant) else (len(elts) if sl.upper is None else None)
+                            if sl.step is not None or not isinstance(lo, int) or not isinstance(hi, int):
+                                return None
+                            return elts[lo:hi]
+                        if isinstance(sl, ast.Constant) and isinstance(sl.value, int) and -len(elts) <= sl.value < len(elts):
+                            return [elts[sl.value]]
+                        return None
+
+                    class T(ast.NodeTransformer):
+                        def visit_Call(self, c_):
+                            self.generic_visit(c_)
+                            args = []
+                            for a in c_.args:
+                                if isinstance(a, ast.Starred) and isinstance(a.value, ast.Name) and a.value.id == name:
+                                    args += clone(list(elts))
+                                elif isinstance(a, ast.Starred) and isinstance(a.value, ast.Subscript) and isinstance(a.value.value, ast.Name) and a.value.value.id == name \
+                                        and isinstance(a.value.slice, ast.Slice) and pick(a.value.slice) is not None:
+                                    args += clone(list(pick(a.value.slice)))
+                                else:
+                                    args.append(a)
+                            c_.args = args
+                            return c_
+
+                        def visit_Subscript(self, s_):
+                            self.generic_visit(s_)
+                            if isinstance(s_.value, ast.Name) and s_.value.id == name and isinstance(s_.ctx, ast.Load) and not isinstance(s_.slice, ast.Slice):
+                                got = pick(s_.slice)
+                                if got is not None:
+                                    return ast.copy_location(clone([got[0]])[0], s_)
+                            return s_
+                    new_span = [T().visit(x) for x in clone(span)]
+                    if any(isinstance(n, ast.Name) and n.id == name for x in new_span for n in ast.walk(x)):
+                        continue            # some use is of another form: leave everything as it was
+                    blk[i0 + 1:i0 + 1 + len(span)] = new_span
+                    blk[i0] = ast.copy_location(ast.Pass(), st)
+        ast.fix_missing_locations(fn.node)
 
     # ------------------------------------------------------------------ scan
     def _scan(self, m):
